@@ -294,6 +294,12 @@ pub struct Globals {
     pub scan_calls: AtomicU64,
     pub rescan_calls: AtomicU64,
     pub live_mutators: AtomicUsize,
+    /// set when a pause was an emergency collection (soft references are not retained then)
+    pub emergency_seen: std::sync::atomic::AtomicBool,
+    /// non-zero while the driver is inside an `alloc_with_options` call: (sequence number << 1) | 1
+    pub in_alloc_call: AtomicU64,
+    /// human-readable description of that call (for the watchdog's verdict)
+    pub alloc_call_desc: Mutex<String>,
 }
 
 fn new_roots<const N: usize>() -> Box<[AtomicUsize; N]> {
@@ -339,6 +345,9 @@ pub fn g() -> &'static Globals {
         scan_calls: AtomicU64::new(0),
         rescan_calls: AtomicU64::new(0),
         live_mutators: AtomicUsize::new(0),
+        emergency_seen: std::sync::atomic::AtomicBool::new(false),
+        in_alloc_call: AtomicU64::new(0),
+        alloc_call_desc: Mutex::new(String::new()),
     })
 }
 
@@ -644,6 +653,9 @@ impl<const V: usize> Collection<ShadowVM<V>> for ShadowVM<V> {
         let gl = g();
         gl.resume_calls.fetch_add(1, Ordering::SeqCst);
         gl.gc_count.fetch_add(1, Ordering::SeqCst);
+        if mmtk_ref::<V>().is_emergency_collection() {
+            gl.emergency_seen.store(true, Ordering::SeqCst);
+        }
         ev(Ev::Resume { worker: worker_ordinal(tls) });
         let mut st = gl.sync.lock().unwrap();
         st.stop_requested = false;
